@@ -4,7 +4,7 @@
 From Coq Require Import String.
 From Coq Require Import ZArith List Bool.
 From LasV Require Import Lib.Base Lib.Layout Gen.GenFormatBits Gen.GenC14 Model.Las Model.LasSpec Model.Laz
-  Proofs.LazProofs Proofs.LazBackendProofs Proofs.LazContract.
+  Proofs.LazProofs Proofs.LazBackendProofs Proofs.LazContract Proofs.LazWitness.
 Import ListNotations.
 Open Scope list_scope.
 Open Scope Z_scope.
@@ -127,3 +127,81 @@ Theorem C14_transparent_nonseekable : forall ap, ap_ok ap -> forall B, conformin
     /\ rh_evlrs (lz_h lg) = (if aint h "version.minor" >=? 4 then Some evl else None).
 Proof. exact conf_transparent_nonseekable. Qed.
 Print Assumptions C14_transparent_nonseekable.
+
+(* appending: an accepted LasAppender session on the compressed file of A yields the compressed file of A ++ chunks
+   (followed by those bytes of the old file that were not overwritten; nothing in the new file points at them) *)
+Theorem C14_append : forall ap, ap_ok ap -> forall B, conforming B -> forall h vl fmt A evl Bs g0 g1 p,
+  wf_las ap h vl fmt A evl -> wf_laz ap B h vl fmt A evl ->
+  wf_las ap h vl fmt (A ++ concat Bs) evl -> wf_laz ap B h vl fmt (A ++ concat Bs) evl ->
+  B_file_of ap B h vl fmt A evl = Ok g0 -> B_file_of ap B h vl fmt (A ++ concat Bs) evl = Ok g1 ->
+  exists junk, B_append ap B p g0 Bs = Ok (g1 ++ junk).
+Proof. exact conf_append_equiv. Qed.
+Print Assumptions C14_append.
+
+(* ... and what is read back after appending is what is read back after appending to the uncompressed file (C06) *)
+Theorem C14_transparent_append : forall ap, ap_ok ap -> (forall s o x, 0 <= ap s o x) -> forall B, conforming B ->
+  forall h vl fmt A evl Bs f0 f1 g0 g1 p backends,
+  wf_las ap h vl fmt A evl -> wf_laz ap B h vl fmt A evl ->
+  wf_las ap h vl fmt (A ++ concat Bs) evl -> wf_laz ap B h vl fmt (A ++ concat Bs) evl ->
+  file_of ap h vl fmt A evl = Ok f0 -> file_of ap h vl fmt (A ++ concat Bs) evl = Ok f1 ->
+  B_file_of ap B h vl fmt A evl = Ok g0 -> B_file_of ap B h vl fmt (A ++ concat Bs) evl = Ok g1 ->
+  backends <> [] ->
+  exists ga lf lg, arun ap f0 Bs = Ok f1 /\ B_append ap B p g0 Bs = Ok ga
+    /\ read_file f1 = Ok lf /\ B_read B backends ga = Ok lg
+    /\ lz_points lg = A ++ concat Bs /\ lf_points lf = A ++ concat Bs
+    /\ rh_vlrs (lz_h lg) = vl /\ rh_vlrs (lf_h lf) = vl
+    /\ rh_evlrs (lz_h lg) = rh_evlrs (lf_h lf)
+    /\ rh_psize (lz_h lg) = rh_psize (lf_h lf) /\ rh_fmt (lz_h lg) = rh_fmt (lf_h lf)
+    /\ (forall n, In n (header_field_names (aint h "version.minor")) -> layout_field n = false ->
+          aget (rh_fields (lz_h lg)) n = aget (rh_fields (lf_h lf)) n).
+Proof. exact conf_append_transparent. Qed.
+Print Assumptions C14_transparent_append.
+
+(* the contract can be honoured: plain storage behind a unary record count is a conforming backend, so none of the
+   theorems above is vacuous in its contract hypothesis (harness/fake_lazrs is the executable witness on the Python side) *)
+Theorem C14_contract_satisfiable : conforming store_backend.
+Proof. exact store_conforming. Qed.
+Print Assumptions C14_contract_satisfiable.
+
+(* non-vacuity: that concrete backend, a 1.4 file of format 6 with one user VLR,
+   three records written as chunks 2+0+1 and one EVLR: the session equals the one-shot file, the file carries the
+   compressed bit and exactly one LasZip record, the seekable read (parallel first) and the non-seekable read
+   (parallel refused, serial taken) return the records, the user's VLR only, and the EVLR; a seek-and-read history agrees
+   with the slices; ".LaZ" is compressed by default, an explicit do_compress=False wins *)
+Definition ex_h : assoc := [("version.major", VInt 1); ("version.minor", VInt 4); ("uuid", VBytes (repeat 0 16));
+  ("system_identifier", VBytes [79; 84]); ("generating_software", VBytes []);
+  ("point_format_id", VInt 6); ("point_size", VInt 30); ("scales[0]", VInt 4607182418800017408)]%string.
+Definition ex_ap (s o x : Z) : Z := if x <? 0 then 0 else x.
+Definition ex_r (x : Z) : list Z := le_enc 4 x ++ repeat 1 26.
+Definition ex_v : vlr := mkVlr [85] 7 [100] [1; 2; 3].
+Definition ex_e : vlr := mkVlr [69] 9 [] [4; 5].
+Example C14_nonvacuous :
+  match B_file_of ex_ap store_backend ex_h [ex_v] 6 [ex_r 5; ex_r 9; ex_r 2] [ex_e],
+        B_session ex_ap store_backend ex_h [ex_v] 6 [[ex_r 5; ex_r 9]; []; [ex_r 2]] [ex_e] with
+  | Ok g, Ok g' =>
+      list_eqb g g' && (nth 104 g 0 =? 128 + 6)
+      && match B_read store_backend [true; false] g, B_read_ns store_backend [true; false] g, dec_header g true with
+         | Ok a, Ok b, Ok rh =>
+             (count_lz (rh_vlrs rh) =? 1) && (len (rh_vlrs rh) =? 2)
+             && (len (lz_points a) =? 3) && list_eqb (concat (lz_points a)) (concat [ex_r 5; ex_r 9; ex_r 2])
+             && list_eqb (concat (lz_points b)) (concat (lz_points a))
+             && (len (rh_vlrs (lz_h a)) =? 1) && (count_lz (rh_vlrs (lz_h a)) =? 0) && (len (rh_vlrs (lz_h b)) =? 1)
+             && match rh_evlrs (lz_h a), rh_evlrs (lz_h b) with
+                | Some [e1], Some [e2] => list_eqb (v_data e1) [4; 5] && list_eqb (v_data e2) [4; 5]
+                | _, _ => false
+                end
+             && match B_source store_backend [true; false] true rh g with
+                | Ok s0 => match snd (prun (B_pstep store_backend) s0 [PRead 1; PSeek 2; PRead 1; PSeek 0; PRead 3]) with
+                           | [Ok [r0]; Ok []; Ok [r2]; Ok []; Ok [_; _; _]] => list_eqb r0 (ex_r 5) && list_eqb r2 (ex_r 2)
+                           | _ => false
+                           end
+                | Err _ => false
+                end
+         | _, _, _ => false
+         end
+      && decide_open true false [46; 76; 97; 90] None false
+      && negb (decide_open true false [46; 76; 97; 90] (Some false) true)
+      && decide_lasdata false [] None true
+  | _, _ => false
+  end = true.
+Proof. vm_compute. reflexivity. Qed.
